@@ -401,9 +401,13 @@ func registerContext(e *Engine) {
 	}
 	cancelFn := func(c *nativeCtx) nativeFunc {
 		return func(ex *Exec, args []Value) Value {
+			first := !c.cancelled
 			c.cancelled = true
 			if c.done != nil {
 				c.done.closed = true
+			}
+			if first {
+				ex.sqlContextCancelled(c)
 			}
 			return nil
 		}
@@ -546,6 +550,7 @@ func init() {
 	extraIntrinsics = append(extraIntrinsics, func(e *Engine) {
 		// vx.TimeBack(base, ageSec) = base - ageSec seconds exactly (whole-second
 		// instants that can coincide with a requested time)
+		e.reg(vxPath+".Settle", func(ex *Exec, fr *frame, args []Value) Value { return nil })
 		e.reg(vxPath+".TimeBack", func(ex *Exec, fr *frame, args []Value) Value {
 			s, n := ex.timeParts(args[0])
 			return ex.mkTime(ex.ts.Bin(OpSub, s, args[1].(*Term)), n)
